@@ -937,6 +937,7 @@ func (rule *RuleExpression) checkMatrix(m *Matrix) *ObjectType {
 		return NewEmptyObjectType()
 	}
 
+	unknown := false
 	for _, combi := range m.Include.Combinations {
 		if combi.Expression != nil {
 			ty := rule.checkOneExpression(combi.Expression, "matrix combination at element of include section", "jobs.<job_id>.strategy")
@@ -952,7 +953,9 @@ func (rule *RuleExpression) checkMatrix(m *Matrix) *ObjectType {
 				}
 				o = &ObjectType{Props: props, Mapped: merged.Mapped}
 			} else {
-				o.Loose()
+				// Nothing is known about the combination. It may define any property, also the ones
+				// of the rows and of the other combinations
+				unknown = true
 			}
 			continue
 		}
@@ -967,6 +970,9 @@ func (rule *RuleExpression) checkMatrix(m *Matrix) *ObjectType {
 		}
 	}
 
+	if unknown {
+		return NewEmptyObjectType()
+	}
 	return o
 }
 
